@@ -25,6 +25,7 @@ ADDRS = {
 RATIO_KEYS = {
     "air_quality", "battery_level", "bypass_position", "demand", "exhaust_fan_speed", "supply_fan_speed", "heat_demand", "relay_demand",
     "indoor_humidity", "outdoor_humidity", "modulation_level", "rel_modulation_level", "max_rel_modulation", "percent_remaining", "percentage", "vent_demand", "post_heat", "pre_heat", "fan_rate",
+    "percent_2", "percent_4", "percent_6",
 }  # fmt: skip
 TEMP_KEYS = {
     "temperature", "setpoint", "dewpoint_temp", "max_temp", "min_temp", "outdoor_temp", "indoor_temp", "exhaust_temp", "supply_temp",
@@ -182,7 +183,7 @@ def elements(code: str) -> list[str]:
     elif code == "3150":
         out = [i + v for i in idxs for v in vals["2"][:3]]
     elif code == "22C9":
-        out = [i + "01F40A28" + s for i in idxs for s in ("01", "00")]
+        out = [i + b + s for i in idxs for b in ("01F40A28", "03200BB8") for s in ("01", "02")]  # (both mode bytes the regex allows)
     elif code == "2249":
         out = [i + "7EFF7EFFFFFF" for i in idxs[:2]] + [i + "07D007D0003C" for i in idxs[:2]]
     assert all(len(e) == 2 * L for e in out), (code, out[:2])
